@@ -9,6 +9,7 @@ import (
 	"bytes"
 	"fmt"
 	"sort"
+	"strings"
 
 	"github.com/aukilabs/hagall-common/messages/dagazpb"
 	"github.com/aukilabs/hagall-common/messages/hagallpb"
@@ -481,6 +482,19 @@ func (m *Model) Step(cid int, r *Req, win []*d.Event) *Outcome {
 		}
 		code, _, ok := errCode(answers[0])
 		if !ok {
+			// relays that reached the requester itself in the same window: its own
+			// request was relayed, and back to it (C02: a refused request is relayed
+			// to no one, and nothing is relayed back to the participant that caused it)
+			echoed := []*d.Event{}
+			for _, e := range rest {
+				if e.M != nil && strings.HasSuffix(string(e.M.ProtoReflect().Descriptor().Name()), "Broadcast") {
+					echoed = append(echoed, e)
+				}
+			}
+			if len(echoed) > 0 {
+				o.viol(append(append([]string{}, props...), "C02"), "answer/refusal-expected", "%s must be refused (%s) but was answered with %s, and the requester itself was relayed %s in the same window", r, reason, answers[0], describe(echoed))
+				return
+			}
 			o.viol(props, "answer/refusal-expected", "%s must be refused (%s) but was answered with %s", r, reason, answers[0])
 			return
 		}
